@@ -5,14 +5,18 @@
    2i+1, key i of a REMOVE has expression i.  The table holds what the harness obtained by
    evaluating each expression itself through the public Expression.Execute (key expressions on
    the empty pair, value expression i on the pair whose key is the evaluated key i):
-   (expr id, key, value) |-> Some bytes | None (= evaluation error).                        *)
-From Coq Require Import List String Bool Arith.
+   (expr id, key, value) |-> Some bytes | None (= evaluation error).
+
+   A second case kind, [WText] (below), starts from the QUERY TEXT: the whole pipeline of
+   Model/PipelineW.v (write_text) against kvql.NewOptimizer(q).BuildPlan(store) + the polls.   *)
+From Coq Require Import List String Bool Arith ZArith.
 Import ListNotations.
-From KV Require Import Base.Bytes Model.Storage Model.Write.
+From KV Require Import Base.Bytes Base.Flt Model.Value Model.Storage Model.Write Model.Pipeline Model.PipelineW
+                       Corr.EvalCommon.
 
 Definition entry := (nat * bytes * bytes * option bytes)%type.
 
-Record case := Case {
+Record pcase := Case {
   ckind : nat;                              (* 0 = put, 1 = remove *)
   cprior : store;                           (* prior state (sorted) *)
   cn : nat;                                 (* number of pairs / keys *)
@@ -45,13 +49,13 @@ Definition ev_table (t : list entry) (i : nat) (k v : bytes) : res bytes :=
 Definition put_exprs (n : nat) : list (nat * nat) := map (fun i => (2 * i, 2 * i + 1)) (seq 0 n).
 Definition remove_exprs (n : nat) : list nat := seq 0 n.
 
-Definition plan_of (c : case) : wplan nat :=
+Definition plan_of (c : pcase) : wplan nat :=
   if Nat.eqb (ckind c) 0 then WPut (put_exprs (cn c)) else WRemove (remove_exprs (cn c)).
 
-Definition polls_of (c : case) : list poll :=
+Definition polls_of (c : pcase) : list poll :=
   map (fun p => if Nat.eqb p 0 then PNext else PBatch) (cpolls c).
 
-Definition model (c : case) : list pres * sstate :=
+Definition model (c : pcase) : list pres * sstate :=
   wexec (ev_table (ctable c)) (plan_of c) (polls_of c) (sinit (cprior c) None).
 
 Definition errclass (e : option err) : nat :=
@@ -81,7 +85,7 @@ Definition norm_call (c : scall) : scall :=
   end.
 Definition norm_log (l : list scall) : list scall := map norm_call l.
 
-Definition twin_agrees (c : case) : bool :=
+Definition twin_agrees (c : pcase) : bool :=
   match model c with
   | (rs, s) =>
       list_eqb res_eqb (map proj_res rs) (obs_res c)
@@ -94,14 +98,14 @@ Definition twin_agrees (c : case) : bool :=
    (written against map semantics: what a lookup of any key must return afterwards;
     no plan, no state machine) *)
 
-Definition tab (c : case) (i : nat) (k : bytes) : option bytes :=
+Definition tab (c : pcase) (i : nat) (k : bytes) : option bytes :=
   match lookup (ctable c) i k EmptyString with
   | Some r => r
   | None => None
   end.
 
 (* the evaluated pairs, in statement order; None if some key or value expression fails *)
-Fixpoint spec_pairs (c : case) (is : list nat) : option (list kvp) :=
+Fixpoint spec_pairs (c : pcase) (is : list nat) : option (list kvp) :=
   match is with
   | [] => Some []
   | i :: is' =>
@@ -119,7 +123,7 @@ Fixpoint spec_pairs (c : case) (is : list nat) : option (list kvp) :=
       end
   end.
 
-Fixpoint spec_keys (c : case) (is : list nat) : option (list bytes) :=
+Fixpoint spec_keys (c : pcase) (is : list nat) : option (list bytes) :=
   match is with
   | [] => Some []
   | i :: is' =>
@@ -177,7 +181,7 @@ Definition no_error (rs : list (option nat * nat)) : bool :=
        finished plan reported an error;
    4 = an expression failed to evaluate but a write was issued / the state changed / no error surfaced;
    5 = a following  select * where key = k  did not observe the write *)
-Definition spec_code (c : case) : nat :=
+Definition spec_code (c : pcase) : nat :=
   let idx := seq 0 (cn c) in
   let polled := negb (Nat.eqb (List.length (cpolls c)) 0) in
   let prior := cprior c in
@@ -222,10 +226,81 @@ Definition spec_code (c : case) : nat :=
 
 (* 0 = agree; 1 = twin and implementation differ; >= 2 = the implementation's own behaviour
    violates the property on this input (see [spec_code]) *)
-Definition check_case (c : case) : nat :=
+Definition check_plain (c : pcase) : nat :=
   match spec_code c with
   | 0 => if twin_agrees c then 0 else 1
   | k => k
+  end.
+
+(* ------------------------------------------------------------------ FROM THE QUERY TEXT
+   A text case = (statement text, what kvql.NewOptimizer(q).BuildPlan(store) returned, and -- in
+   the shape of a plain case -- prior state, polling pattern, per-poll results, storage call log,
+   final state, plus the evaluation table when the harness could parse the text as a PUT /
+   REMOVE itself).  The Coq side runs Model/PipelineW.v write_text (lexer, statement parser,
+   checker, call check, NO folding, PutPlan / RemovePlan over the evaluator twin) on the TEXT.
+
+   code 1 : twin and implementation differ: accepted vs rejected, the error position, the poll
+            results, the storage call log (Put k v = BatchPut [(k,v)], Delete k = BatchDelete [k]),
+            the final state;
+   code >= 2 : as for plain cases, from the table the harness recorded (spec_code);
+   code 6 : BuildPlan returned an error, yet the storage was touched;
+   code 99: outside the model (Model/PipelineW.v). *)
+Inductive wbuild :=
+  | WAccepted                  (* BuildPlan returned a plan *)
+  | WRejected (pos : Z)        (* a *SyntaxError with this Pos *)
+  | WBuildErr.                 (* any other error *)
+
+Record wtcase := WTCase {
+  wq : string;
+  wbuilt : wbuild;
+  wtable_ok : bool;            (* the table of [wobs] is usable: the spec verdict applies *)
+  wobs : pcase
+}.
+
+Definition untouched (c : pcase) : bool :=
+  Nat.eqb (List.length (obs_log c)) 0 && store_eqb (obs_final c) (cprior c).
+
+Definition wspec_code (t : wtcase) : nat :=
+  match wbuilt t with
+  | WAccepted => if wtable_ok t then spec_code (wobs t) else 0
+  | _ => if untouched (wobs t) then 0 else 6
+  end.
+
+Definition wtwin_code (t : wtcase) : nat :=
+  let c := wobs t in
+  match write_text prim_fops re_oom (wq t) (polls_of c) (sinit (cprior c) None) with
+  | (TOom, _) => 99
+  | (TReject p, s) =>
+      match wbuilt t with
+      | WRejected q => if Z.eqb p q && untouched c && store_eqb (sdata s) (cprior c) then 0 else 1
+      | _ => 1
+      end
+  | (TOk rs, s) =>
+      match wbuilt t with
+      | WAccepted =>
+          if list_eqb res_eqb (map proj_res rs) (obs_res c)
+             && log_eqb (norm_log (slog s)) (norm_log (obs_log c))
+             && store_eqb (sdata s) (obs_final c)
+          then 0 else 1
+      | _ => 1
+      end
+  | (_, _) => 1
+  end.
+
+Definition check_wtext (t : wtcase) : nat :=
+  match wspec_code t with
+  | 0 => wtwin_code t
+  | k => k
+  end.
+
+Inductive case :=
+  | Plain (c : pcase)          (* from the AST / the evaluation table *)
+  | WText (t : wtcase).        (* from the query text *)
+
+Definition check_case (c : case) : nat :=
+  match c with
+  | Plain c => check_plain c
+  | WText t => check_wtext t
   end.
 
 Fixpoint mism_from (i : nat) (cs : list case) : list (nat * nat) :=
